@@ -411,6 +411,11 @@ func main() {
 	}
 	wg.Wait()
 
+	type stallRec struct {
+		shard int
+		path  string
+	}
+	var stalls []stallRec
 	agg := shardOut{Labels: map[string]int{}, Extra: map[string]int{}}
 	nt := map[string]struct{}{}
 	inconclusive := ""
@@ -446,13 +451,7 @@ func main() {
 			inconclusive = fmt.Sprintf("shard %d exceeded its time limit (%s)", i, timeout)
 		case r.exit == 0:
 		case r.exit == 3:
-			if pc.StallIsViolation {
-				p := saveFailure(*prop, failFile+".stall")
-				printViolation(p, "stall: a call did not return / no progress")
-			} else {
-				p := saveFailure(*prop, failFile+".stall")
-				inconclusive = fmt.Sprintf("shard %d: controller wait expired (stall), details in %s", i, p)
-			}
+			stalls = append(stalls, stallRec{i, saveFailure(*prop, failFile+".stall")})
 		case r.exit == 1:
 			if _, err := os.Stat(failFile); err == nil {
 				p := saveFailure(*prop, failFile)
@@ -461,12 +460,7 @@ func main() {
 				p := saveCrash(*prop, filepath.Join(sdir, "journal.json"), r.out)
 				printViolation(p, crashSummary(r.out))
 			} else if _, err := os.Stat(failFile + ".stall"); err == nil {
-				p := saveFailure(*prop, failFile+".stall")
-				if pc.StallIsViolation {
-					printViolation(p, "stall: a call did not return / no progress")
-				} else {
-					inconclusive = fmt.Sprintf("shard %d: a wait expired (stall), details in %s", i, p)
-				}
+				stalls = append(stalls, stallRec{i, saveFailure(*prop, failFile+".stall")})
 			} else {
 				fmt.Printf("%s\n", tail(r.out, 40))
 				inconclusive = fmt.Sprintf("shard %d failed without a failing program", i)
@@ -480,6 +474,48 @@ func main() {
 				fmt.Printf("%s\n", tail(r.out, 40))
 				inconclusive = fmt.Sprintf("shard %d exited with code %d", i, r.exit)
 			}
+		}
+	}
+	// A wait that expired inside a shard is only a stall of the library if it
+	// is one without sixteen sibling processes competing for the machine: the
+	// saved program is run again, alone, several times.  It is reported (as a
+	// violation where "calls return" is the property, as inconclusive
+	// elsewhere) when any of these runs stalls again; a run that fails its
+	// oracle is a violation like any other; otherwise the expired wait was
+	// load, the shard's remaining cases are missing from the count, and the
+	// evidence says so.
+	for _, st := range stalls {
+		tries := 2
+		if pc.StallIsViolation {
+			tries = 5
+		}
+		again, failed := 0, ""
+		for k := 0; k < tries && again == 0 && failed == ""; k++ {
+			ff := filepath.Join(scratch, fmt.Sprintf("stallreplay-%d-%d.json", st.shard, k))
+			code, _, to := runProc(bin, []string{"-test.run", "^TestReplay$", "-test.count=1", "-test.timeout=10m"},
+				baseEnv("VERIF_REPLAY="+st.path, "VERIF_FAIL="+ff, exclEnv), hdir, 12*time.Minute)
+			switch {
+			case to || code == 3:
+				again++
+			case code != 0:
+				if _, err := os.Stat(ff); err == nil {
+					failed = saveFailure(*prop, ff)
+				} else {
+					again++
+				}
+			}
+		}
+		switch {
+		case failed != "":
+			printViolation(failed, failMessage(failed))
+		case again > 0 && pc.StallIsViolation:
+			printViolation(st.path, "stall: a call did not return / no progress (also when the program runs alone)")
+		case again > 0:
+			inconclusive = fmt.Sprintf("shard %d: controller wait expired (stall), also when the program runs alone; details in %s", st.shard, st.path)
+		default:
+			n := fmt.Sprintf("shard %d: a controller wait expired while 16 shards were running; the saved program (%s) then ran %d times alone without any stall or failure - counted as machine load, the rest of that shard's cases were not run", st.shard, st.path, tries)
+			fmt.Println("note: " + n)
+			agg.Notes = append(agg.Notes, n)
 		}
 	}
 	for _, l := range uniq(agg.Known) {
